@@ -196,6 +196,18 @@ class Ctx:
       if un: problems.append(f'unexpected axioms: {un}')
       if closed + (1 if axioms else 0) == 0 and nprint > 0:
         problems.append('no Print Assumptions output captured')
+    # thorough tier: independent re-check of the compiled theorem file and everything it depends on
+    if not problems and self.tier == 'thorough' and os.environ.get('VERIF_NO_COQCHK') != '1':
+      t = time.time()
+      rc2, out2 = sh(['timeout', '1500', 'coqchk', '-o', '-silent', '-Q', 'theories', 'PV', f'PV.Props.{self.pid}'], cwd=COQ, timeout=1600)
+      m = re.search(r'\* Axioms:(.*?)\n\s*\n\* Constants', out2, flags=re.S)
+      ax = m.group(1).strip() if m else 'unparsed'
+      self.extra['coqchk'] = {'rc': rc2, 'axioms': ax, 'wall_s': round(time.time() - t, 1),
+                              'type_in_type': 'type-in-type: <none>' in out2, 'tail': out2[-400:] if rc2 else ''}
+      if rc2 != 0: problems.append('coqchk failed: ' + out2[-300:])
+      elif ax != '<none>':
+        un = [a for a in re.findall(r'[A-Za-z_][A-Za-z0-9_\.\']*', ax) if a not in self.allow_axioms]
+        if un: problems.append(f'coqchk reports axioms: {ax[:300]}')
     self.proof['ok'] = not problems
     self.proof['problems'] = problems
     self.proof['log'] = log[-3000:]
